@@ -63,7 +63,7 @@ func (e *Engine) Apply(op *Op) error {
 	e.Stats.Ops++
 	switch op.K {
 	// ------------------------------------------------------------ arrays
-	case "app", "ins", "set", "rem", "get", "pop", "appN", "remN", "grow", "badget", "badset", "badins", "badrem":
+	case "app", "ins", "set", "rem", "get", "pop", "appN", "remN", "grow", "reset", "badget", "badset", "badins", "badrem":
 		n := e.pick(op.T, false, true)
 		if n == nil {
 			e.Stats.Skipped++
@@ -75,7 +75,7 @@ func (e *Engine) Apply(op *Op) error {
 		e.noteTarget(n)
 		return e.withIsolation(n, func() error { return e.arrayOp(n, op) })
 	// ------------------------------------------------------------ maps
-	case "mset", "mget", "mhas", "mrem", "mpop", "msetN", "mremN", "mgrow", "mbadget", "mbadrem", "mbadhas":
+	case "mset", "mget", "mhas", "mrem", "mpop", "msetN", "mremN", "mgrow", "mreset", "mbadget", "mbadrem", "mbadhas":
 		n := e.pick(op.T, true, false)
 		if n == nil {
 			e.Stats.Skipped++
@@ -224,6 +224,57 @@ func (e *Engine) arrayOp(n *Node, op *Op) error {
 			e.adopt(n, m)
 		}
 		e.rec("appN %d ok", op.N)
+		return nil
+
+	case "reset":
+		// scenario: a nested container grows out of its parent, is assigned to its own slot again
+		// (supported: the library keeps tracking a child whose value id equals the overwritten one)
+		// and then shrinks through the same handle - it must be inlined again
+		var cands []int
+		var cvals []MV
+		for i, el := range n.Elems {
+			if c := nodeOf(el); c != nil {
+				cands = append(cands, i)
+				cvals = append(cvals, el)
+			}
+		}
+		if len(cands) == 0 {
+			e.Stats.Skipped++
+			return nil
+		}
+		idx := cands[preferWrapped(cvals, op.P)]
+		c := nodeOf(n.Elems[idx])
+		if err := e.acquire(c); err != nil {
+			return err
+		}
+		if err := e.growUntilStandalone(c); err != nil {
+			return err
+		}
+		if childInlined(c) {
+			e.Stats.Skipped++
+			return nil
+		}
+		var cv atree.Value = c.HA
+		if c.IsMap {
+			cv = c.HM
+		}
+		for i := 0; i < wrapLevels(n.Elems[idx]); i++ {
+			cv = Some{V: cv}
+		}
+		old, err := a.Set(uint64(idx), cv)
+		if err != nil {
+			return e.viol("Set(%d) with the container already stored there failed: %v", idx, err)
+		}
+		if id, ok := unwrapStorable(old).(atree.SlabIDStorable); !ok || slabIDToValueID(atree.SlabID(id)) != c.VID {
+			return e.viol("Set(%d) with the container already stored there handed back %v", idx, old)
+		}
+		e.Stats.label("reassign_same_child")
+		if wrapLevels(n.Elems[idx]) > 0 {
+			e.Stats.label("reassign_same_wrapped_child")
+		}
+		if op.D == 0 {
+			return e.shrinkToFew(c)
+		}
 		return nil
 
 	case "grow":
@@ -392,10 +443,10 @@ func (e *Engine) arrayOp(n *Node, op *Op) error {
 
 // mkScalar is mk restricted to values that create no container (used for requests that must be rejected).
 func (e *Engine) mkScalar(vd *VD, addr atree.Address, limit uint32) (atree.Value, MV, error) {
-	if vd != nil && (vd.K == "arr" || vd.K == "map" || vd.K == "cmap") {
+	if vd != nil && (vd.K == "arr" || vd.K == "map" || vd.K == "cmap" || vd.K == "barr") {
 		vd = &VD{K: "u", N: vd.N}
 	}
-	if vd != nil && vd.K == "some" && vd.E != nil && (vd.E.K == "arr" || vd.E.K == "map" || vd.E.K == "cmap") {
+	if vd != nil && vd.K == "some" && vd.E != nil && (vd.E.K == "arr" || vd.E.K == "map" || vd.E.K == "cmap" || vd.E.K == "barr") {
 		vd = &VD{K: "some", W: vd.W, E: &VD{K: "u", N: vd.N}}
 	}
 	return e.mk(vd, addr, limit, 9)
@@ -461,6 +512,54 @@ func (e *Engine) mapOp(n *Node, op *Op) error {
 			if err := e.mapSet(n, km, vd, false); err != nil {
 				return err
 			}
+		}
+		return nil
+
+	case "mreset":
+		var cands []string
+		var cvals []MV
+		for _, ck := range n.SortedKeys() {
+			if c := nodeOf(n.Ents[ck].V); c != nil {
+				cands = append(cands, ck)
+				cvals = append(cvals, n.Ents[ck].V)
+			}
+		}
+		if len(cands) == 0 {
+			e.Stats.Skipped++
+			return nil
+		}
+		ck := cands[preferWrapped(cvals, op.P)]
+		c := nodeOf(n.Ents[ck].V)
+		if err := e.acquire(c); err != nil {
+			return err
+		}
+		if err := e.growUntilStandalone(c); err != nil {
+			return err
+		}
+		if childInlined(c) {
+			e.Stats.Skipped++
+			return nil
+		}
+		var cv atree.Value = c.HA
+		if c.IsMap {
+			cv = c.HM
+		}
+		for i := 0; i < wrapLevels(n.Ents[ck].V); i++ {
+			cv = Some{V: cv}
+		}
+		old, err := m.Set(cmp, hip, keyValue(n.Ents[ck].K), cv)
+		if err != nil {
+			return e.viol("Set(%s) with the container already stored there failed: %v", short(ck), err)
+		}
+		if id, ok := unwrapStorable(old).(atree.SlabIDStorable); !ok || slabIDToValueID(atree.SlabID(id)) != c.VID {
+			return e.viol("Set(%s) with the container already stored there handed back %v", short(ck), old)
+		}
+		e.Stats.label("reassign_same_child")
+		if wrapLevels(n.Ents[ck].V) > 0 {
+			e.Stats.label("reassign_same_wrapped_child")
+		}
+		if op.D == 0 {
+			return e.shrinkToFew(c)
 		}
 		return nil
 
@@ -1000,4 +1099,57 @@ func (e *Engine) rejectedOp(op *Op) error {
 		return nil
 	}
 	return nil
+}
+
+
+// childInlined reports whether nested container c is currently inlined (through its designated handle).
+func childInlined(c *Node) bool {
+	if c.IsMap {
+		return c.HM.Inlined()
+	}
+	return c.HA.Inlined()
+}
+
+// growUntilStandalone appends to nested container c until it no longer fits inline (bounded).
+func (e *Engine) growUntilStandalone(c *Node) error {
+	for i := 0; i < 40 && childInlined(c); i++ {
+		var err error
+		if c.IsMap {
+			if c.TI.Comp {
+				return nil
+			}
+			err = e.mapOp(c, &Op{K: "msetN", P: uint64(7000 + i*16), N: 8, V: &VD{K: "s", Z: 1, N: uint64(i)}})
+		} else {
+			err = e.arrayOp(c, &Op{K: "appN", N: 8, V: &VD{K: "s", Z: 1, N: uint64(i)}})
+		}
+		if err != nil {
+			return err
+		}
+	}
+	return nil
+}
+
+// shrinkToFew removes elements of nested container c through its handle until at most two remain.
+func (e *Engine) shrinkToFew(c *Node) error {
+	if c.Count() <= 2 {
+		return nil
+	}
+	if c.IsMap {
+		return e.mapOp(c, &Op{K: "mremN", P: 3, N: c.Count() - 2})
+	}
+	return e.arrayOp(c, &Op{K: "remN", P: 1, N: c.Count() - 2, D: 2})
+}
+
+// pickChild prefers wrapped nested containers (cands are indexes / keys in deterministic order).
+func preferWrapped(vals []MV, p uint64) int {
+	var wrapped []int
+	for i, v := range vals {
+		if wrapLevels(v) > 0 {
+			wrapped = append(wrapped, i)
+		}
+	}
+	if len(wrapped) > 0 && p%4 != 0 {
+		return wrapped[int(p/4)%len(wrapped)]
+	}
+	return int(p % uint64(len(vals)))
 }
